@@ -1,0 +1,43 @@
+//go:build verif
+
+package crlrepository
+
+import (
+	"github.com/gr33nbl00d/caddy-revocation-validator/core"
+	"github.com/gr33nbl00d/caddy-revocation-validator/crl/crlreader"
+	"github.com/gr33nbl00d/caddy-revocation-validator/crl/crlstore"
+)
+
+// Verification-only accessors (build tag verif).
+
+type VerifEntryInfo struct {
+	Identifier                      string
+	Present                         bool
+	Loaded                          bool
+	LastUpdateSignatureVerifyFailed bool
+	StoreNil                        bool
+	Store                           crlstore.CRLStore
+}
+
+func (R *Repository) VerifEntries() []VerifEntryInfo {
+	R.crlRepositoryLock.RLock()
+	defer R.crlRepositoryLock.RUnlock()
+	out := make([]VerifEntryInfo, 0, len(R.crlRepository))
+	for id, e := range R.crlRepository {
+		if e == nil {
+			out = append(out, VerifEntryInfo{Identifier: id})
+			continue
+		}
+		e.entryLock.RLock()
+		out = append(out, VerifEntryInfo{Identifier: id, Present: true, Loaded: e.Loaded,
+			LastUpdateSignatureVerifyFailed: e.LastUpdateSignatureVerifyFailed, StoreNil: e.CRLStore == nil, Store: e.CRLStore})
+		e.entryLock.RUnlock()
+	}
+	return out
+}
+
+func (R *Repository) VerifUpdateCRL(identifier string) error { return R.updateCRL(identifier) }
+
+func VerifVerifyCRLSignature(result *crlreader.CRLReadResult, chains *core.CertificateChains) (*core.CertificateChainEntry, error) {
+	return verifyCRLSignature(result, chains)
+}
